@@ -41,6 +41,15 @@ type histProp struct {
 	fixed map[string]PCase
 	// scale lists the scale scenarios (scale.go) run for every parser type.
 	scale []string
+	// duo adds histories of two objects that are interleaved.
+	duo bool
+}
+
+// DuoCase: two histories, executed interleaved (one operation of one of them
+// at a time, in the order given by Sched: bit i tells whose turn step i is).
+type DuoCase struct {
+	Sub   [2]PCase `json:"sub"`
+	Sched []byte   `json:"sched"`
 }
 
 type histObserver interface {
@@ -61,7 +70,7 @@ func (h *histProp) Plan(tier string, seed int64) []core.Segment {
 	if h.large || h.midtext || h.far {
 		// distinct instances used from several goroutines at once must each
 		// behave as they do alone
-		segs = append(segs, core.Segment{Kind: "overlap", N: 3 * tierScale(tier, 5), Chunk: 1})
+		segs = append(segs, core.Segment{Kind: "overlap", N: 12 * tierScale(tier, 3), Chunk: 1})
 	}
 	var names []string
 	for name := range h.fixed {
@@ -76,6 +85,11 @@ func (h *histProp) Plan(tier string, seed int64) []core.Segment {
 		segs = append(segs, core.Segment{Kind: t, N: h.quickN * tierScale(tier, h.thorMul)})
 		if len(h.scale) > 0 {
 			segs = append(segs, core.Segment{Kind: "scale:" + t, N: int64(len(h.scale)) * 2 * tierScale(tier, 6), Chunk: 1})
+		}
+		if h.duo {
+			// two monitored objects whose histories are interleaved operation
+			// by operation (buffers of 16 bytes to 8 KiB)
+			segs = append(segs, core.Segment{Kind: "duo:" + t, N: 1500 * tierScale(tier, 20)})
 		}
 		if h.large {
 			sa := t == "GSAP" || t == "OSAP"
@@ -171,7 +185,7 @@ func splitKind(kind string) (class, typ string) {
 // return is reported after 20 s of CPU time instead of 60.
 func (h *histProp) KindCPU(kind, tier string) int {
 	switch class, _ := splitKind(kind); class {
-	case "", "corpus", "long", "fixed", "mid":
+	case "", "corpus", "long", "fixed", "mid", "duo":
 		if tier == "thorough" {
 			return 60
 		}
@@ -202,6 +216,52 @@ func (h *histProp) Gen(kind string, idx int64, seed int64, tier string) core.Cas
 			pc.Cfg.TameBig()
 			oc.Sub = append(oc.Sub, pc)
 		}
+		if idx%4 == 3 {
+			// four instances of one type with one configuration work through
+			// streams of 60-120 kB in blocks of 0.5-2 KiB at the same time
+			// (tenths of seconds of work each, so that the calls really overlap)
+			typ := "OSAP"
+			ok := false
+			for _, t := range h.types {
+				ok = ok || t == typ
+			}
+			if !ok {
+				typ = h.types[int(idx/4)%len(h.types)]
+			}
+			cfg := gen.SmallCfg(r, typ, gen.Opts{})
+			cfg.BufferSize = 8192 + r.Intn(8192)
+			cfg.ShrinkSize = cfg.BufferSize / 2
+			cfg.WindowSize = cfg.BufferSize
+			cfg.BlockSize = 512 << uint(r.Intn(3))
+			cfg.TameBig()
+			oc.Sub = oc.Sub[:0]
+			for g := 0; g < 4; g++ {
+				stream := gen.Family(r, []string{"text", "rand4", "lzsynth", "text"}[g], 60000+r.Intn(60000), cfg.Hint())
+				var ops []POp
+				for len(ops) < 400 {
+					ops = append(ops, POp{K: "write", A: 1, B: 0})
+					for j := 0; j < cfg.BufferSize/cfg.BlockSize+1; j++ {
+						ops = append(ops, POp{K: "parse", A: r.Intn(2)})
+					}
+					ops = append(ops, POp{K: "shrink"})
+				}
+				oc.Sub = append(oc.Sub, PCase{Cfg: cfg, Family: "twins", Stream: stream, Ops: ops})
+			}
+			return core.MkCase(h.id, kind, idx, seed, tier, oc)
+		}
+		if idx%2 == 1 {
+			// the instances of one type share their configuration (whatever a
+			// cache might be keyed by is equal)
+			first := map[string]gen.Cfg{}
+			for i := range oc.Sub {
+				t := oc.Sub[i].Cfg.Type
+				if c0, ok := first[t]; ok {
+					oc.Sub[i].Cfg = c0
+				} else {
+					first[t] = oc.Sub[i].Cfg
+				}
+			}
+		}
 		return core.MkCase(h.id, kind, idx, seed, tier, oc)
 	}
 	class, typ := splitKind(kind)
@@ -213,6 +273,42 @@ func (h *histProp) Gen(kind string, idx int64, seed int64, tier string) core.Cas
 	o := gen.Opts{}
 	if h.opts != nil {
 		o = h.opts(typ)
+	}
+	if class == "duo" {
+		var dc DuoCase
+		w := h.weights
+		w.ResetData = 3*w.ResetData + 4
+		w.Other = -1
+		for g := 0; g < 2; g++ {
+			t := typ
+			if g == 1 && r.Intn(3) == 0 {
+				t = h.types[r.Intn(len(h.types))]
+			}
+			og := o
+			if og.MaxBuf == 0 && r.Intn(2) == 0 {
+				og.MaxBuf, og.MinBuf = 8200, 600
+			}
+			pc := GenPCase(r, t, og, w, 40+r.Intn(80), 2000+r.Intn(12000))
+			if g == 1 && r.Intn(2) == 0 {
+				// same configuration as the first one
+				pc.Cfg = dc.Sub[0].Cfg
+				pc.Cfg.Type = dc.Sub[0].Cfg.Type
+			}
+			for i := range pc.Ops {
+				op := &pc.Ops[i]
+				if (op.K == "write" || op.K == "readfrom") && op.A == 0 {
+					op.B *= 1 + r.Intn(1+pc.Cfg.BufferSize/200)
+				}
+				if op.K == "reset" && op.A >= 1 && op.A != 4 {
+					op.B *= 1 + r.Intn(1+pc.Cfg.BufferSize/300)
+				}
+			}
+			pc.Cfg.TameBig()
+			dc.Sub[g] = pc
+		}
+		dc.Sched = make([]byte, 64)
+		r.Read(dc.Sched)
+		return core.MkCase(h.id, kind, idx, seed, tier, dc)
 	}
 	var pc PCase
 	switch class {
@@ -618,9 +714,92 @@ func (h *histProp) runOverlap(c *core.Case, st *core.Stats) []core.Violation {
 	return nil
 }
 
+// runDuo executes two histories interleaved: two goroutines of which only one
+// runs at any time (the turn is handed over before an operation), so the
+// interleaving is the one the case describes.
+func (h *histProp) runDuo(c *core.Case, st *core.Stats) []core.Violation {
+	dc, err := decode[DuoCase](c)
+	if err != nil {
+		return []core.Violation{core.V(c, "harness", "bad case: %v", err)}
+	}
+	var ps [2]*PState
+	for g := range ps {
+		var nerr error
+		if pv := call(func() { ps[g], nerr = NewParserFor(dc.Sub[g].Cfg) }); pv != nil {
+			return []core.Violation{core.V(c, "panic", "NewParser: %s", fmtPanic(pv))}
+		}
+		if nerr != nil {
+			st.Inc("config_rejected")
+			return nil
+		}
+	}
+	type res struct{ class, msg string }
+	var out [2]res
+	var obs [2]histObserver
+	var sub [2]*core.Stats
+	wake := [2]chan struct{}{make(chan struct{}, 1), make(chan struct{}, 1)}
+	var done [2]bool
+	step := 0
+	yield := func(g int) func() {
+		return func() {
+			o := 1 - g
+			if done[o] || len(dc.Sched) == 0 {
+				return
+			}
+			turn := int(dc.Sched[(step/8)%len(dc.Sched)]>>(uint(step)%8)) & 1
+			step++
+			if turn == g {
+				return
+			}
+			wake[o] <- struct{}{}
+			<-wake[g]
+		}
+	}
+	var wg sync.WaitGroup
+	for g := 0; g < 2; g++ {
+		sub[g] = core.NewStats()
+		obs[g] = h.newObs(&dc.Sub[g], ps[g], c, sub[g])
+		ps[g].yield = yield(g)
+		wg.Add(1)
+		go func(g int) {
+			defer wg.Done()
+			if g == 1 {
+				<-wake[1]
+			}
+			defer func() {
+				if pv := recover(); pv != nil {
+					out[g] = res{"panic", fmtPanic(pv)}
+				}
+				done[g] = true
+				if !done[1-g] {
+					wake[1-g] <- struct{}{}
+				}
+			}()
+			cl, msg, _ := RunHistory(ps[g], &dc.Sub[g], &transObserver{obs[g], sub[g]})
+			out[g] = res{cl, msg}
+		}(g)
+	}
+	wg.Wait()
+	for g := 0; g < 2; g++ {
+		st.Merge(sub[g], 0)
+		if out[g].class != "" {
+			return []core.Violation{core.V(c, out[g].class, "%s cfg=%+v, object %d of two objects (the other: %s cfg=%+v) whose histories are interleaved: %s", dc.Sub[g].Cfg.Type, dc.Sub[g].Cfg, g, dc.Sub[1-g].Cfg.Type, dc.Sub[1-g].Cfg, out[g].msg)}
+		}
+	}
+	st.Inc("interleaved_history_pairs")
+	st.Add("interleaved_operations", int64(step))
+	if obs[0].Finish(ps[0]) || obs[1].Finish(ps[1]) {
+		st.NonTrivial(c)
+	}
+	return nil
+}
+
 func (h *histProp) Run(c *core.Case, st *core.Stats) []core.Violation {
 	if c.Kind == "overlap" {
 		return h.runOverlap(c, st)
+	}
+	if cl, _ := splitKind(c.Kind); cl == "duo" {
+		return h.runDuo(c, st)
 	}
 	pc, err := decode[PCase](c)
 	if err != nil {
@@ -803,7 +982,7 @@ func init() {
 			mandatory:   []string{"blocks_with_match", "shrink_discarding", "blocks_with_match_after_shrink_or_reset", "matches_with_source_retained_across_shrink", "reset_mode2", "blocks_ntl", "wrap:blocks_with_match", "wrap:refills", "wrap:shrink_discarding", "wrap:parse_EOF"},
 			expected:    []string{"overlapping_matches", "reset_mode3", "matches_with_source_before_block"}},
 		types: gen.ParserTypes, quickN: 12000, thorMul: 40, corpusN: 300, large: true,
-		weights: DefaultWeights, scale: scaleAll,
+		weights: DefaultWeights, scale: scaleAll, duo: true,
 		newObs: func(pc *PCase, ps *PState, c *core.Case, st *core.Stats) histObserver {
 			return &c01obs{cr: commonReach{st: st}}
 		},
@@ -1051,7 +1230,7 @@ func init() {
 			expected:    []string{"unparsed==BlockSize"}},
 		types: gen.ParserTypes, quickN: 12000, thorMul: 40, corpusN: 300, large: true,
 		weights: HWeights{Write: 18, ReadFrom: 8, Parse: 26, ParseNTL: 22, ParseNil: 5, Shrink: 10, Reset: 1, ResetData: 2, WParse: 10, Faults: true},
-		scale:   scaleAll,
+		scale:   scaleAll, duo: true,
 		newObs: func(pc *PCase, ps *PState, c *core.Case, st *core.Stats) histObserver {
 			return &c03obs{cr: commonReach{st: st}, st: st}
 		},
